@@ -57,7 +57,9 @@ package jsonschema
 //@   && (forall a string :: has(info.anchors, a) ==> inRS(rs, info.anchors[a].schema)) \
 //@   && (forall re *regexp.Regexp :: has(info.patternProperties, re) ==> re != nil && inRS(rs, info.patternProperties[re]))
 
-//@ pred wfS(rs *Resolved, s *Schema) = s != nil && infoOK(rs, s, rs.resolvedInfos[s]) && childrenIn(rs, s)
+//@ pred constsShaped(s *Schema) = (forall i int {s.Enum[i]} :: 0 <= i && i < len(s.Enum) ==> shaped(rvof(s.Enum[i]))) \
+//@   && (s.Const != nil ==> shaped(rvof(*s.Const)))
+//@ pred wfS(rs *Resolved, s *Schema) = s != nil && infoOK(rs, s, rs.resolvedInfos[s]) && childrenIn(rs, s) && constsShaped(s)
 
 //@ pred wfRS(rs *Resolved) = rs != nil && isold(rs) && inRS(rs, rs.root) \
 //@   && (forall s *Schema {rs.resolvedInfos[s]} :: isold(s) && has(rs.resolvedInfos, s) ==> wfS(rs, s))
@@ -82,7 +84,7 @@ package jsonschema
 
 //@ pred plainJ(v reflect.Value) = shaped(v) && kind(v) != 20 && kind(v) != 22
 //@ contract equalValue(x, y)
-//@   requires shaped(x) || shaped(y)
+//@   requires shaped(x) && shaped(y)
 //@   pure
 //@   ensures[C11] num: plainJ(x) && plainJ(y) && isJNum(jv(x)) && isJNum(jv(y)) ==> result == (jn(jv(x)) == jn(jv(y)))
 //@   ensures[C11] bool: plainJ(x) && plainJ(y) && isJBool(jv(x)) && isJBool(jv(y)) ==> result == (jb(jv(x)) == jb(jv(y)))
